@@ -46,6 +46,8 @@ def rewritings(rng, tree):
     out.append(("no-ns-decl", mml.to_xml(tree, ns_decl=False)))
     junks = ["<!-- a comment -->", "<?proc inst?>", "\n  ", " ", "\t\n", "<!--<mi>z</mi>-->", "<!-- x -- y -->"[:0] + "<!-- &alpha; -->", ""]
     out.append(("junk", mml.to_xml(tree, junk=lambda: rng.choice(junks))))
+    ws = [" ", "\n", "\n    ", "\t", "  \r\n  "]
+    out.append(("whitespace", mml.to_xml(tree, junk=lambda: rng.choice(ws), empty_junk=lambda: rng.choice(ws))))       # also inside empty containers
     # MathJax classes
     t2 = tree.copy()
     for n in t2.walk():
@@ -141,6 +143,11 @@ def run(ctx):
     # ---- 3. oracle: metamorphic rewritings of whole expressions
     n_expr = 40 if ctx.tier == "quick" else 1500
     trees = mml.corpus_basic() + [mml.math(mml.gen_expr(rng, rng.randrange(1, 4))) for _ in range(n_expr)]
+    # containers without content (pretty printers put a line break inside them)
+    E = mml
+    trees += [E.math(E.el("msup", E.mrow(), E.mn("2"))), E.math(E.el("mfrac", E.mrow(), E.mi("x"))), E.math(E.mrow(E.mi("a"), E.mo("+"), E.mrow(), E.mi("b"))),
+              E.math(E.el("mtable", E.el("mtr", E.el("mtd"), E.el("mtd", E.mi("a"))), E.el("mtr", E.el("mtd", E.mn("1")), E.el("mtd")))), E.math(E.el("msqrt")),
+              E.math(E.el("msqrt", E.mrow())), E.N("math"), E.math(E.el("mstyle", E.mrow(), E.mi("x"))), E.math(E.el("msub", E.mi("x"), E.el("mrow", E.mrow())))]
     meta_cases, reqs = [], []
     for t in trees:
         rs = rewritings(rng, t)
@@ -169,7 +176,7 @@ def run(ctx):
         "evaluations": len(strings) + 2 * len(ent_cases) + len(meta_cases),
         "distinct_nontrivial": len(set(s for s, rm in zip(strings, rep_m) if rm.get("r") != "ok" or rm.get("v") != s + "<")) + n_changed,
         "rule": "model-vs-implementation: fragment-generated strings (entities, MathJax classes, xmlns declarations, prefixed tags, adversarial near-misses) echoed through the "
-                "'Invalid MathML input' message; oracle: all entity names named-vs-numeric, and corpus+generated expressions under 11 surface rewritings. "
+                "'Invalid MathML input' message; oracle: all entity names named-vs-numeric, and corpus+generated expressions under 12 surface rewritings (white space also as the sole content of empty containers). "
                 "non-trivial = the rewriting pipeline changed the string / the rewritten spelling differs from the baseline bytes",
         "correspondence_strings": len(strings), "model_branches": branch, "entities_checked": len(ent_cases),
         "metamorphic_cases": len(meta_cases), "metamorphic_per_rewrite": per_tag,
